@@ -1304,15 +1304,15 @@ end sorting
 /-! ## 5. The shared-`seen` walk (C21) -/
 
 section walk
-variable {α : Type} [DecidableEq α]
+variable {α β : Type} [DecidableEq β]
 
-theorem walk_spec (deps : α → List α) :
-    ∀ (fuel : Nat) (stack seen out : List α) (seen' out' : List α),
-      walk deps fuel stack seen out = some (seen', out') →
-      (∀ e ∈ seen, ∀ d ∈ deps e, d ∈ seen ∨ d ∈ stack) →
-      DepClosed deps seen' ∧ (∀ e ∈ stack, e ∈ seen') ∧
-      ∃ new, out' = out ++ new ∧ new.Nodup ∧ (∀ e ∈ new, e ∉ seen) ∧
-        (∀ e, e ∈ seen' ↔ e ∈ seen ∨ e ∈ new) := by
+theorem walk_spec (nm : α → β) (deps : α → List α) :
+    ∀ (fuel : Nat) (stack : List α) (seen : List β) (out : List α) (seen' : List β) (out' : List α),
+      walk nm deps fuel stack seen out = some (seen', out') →
+      (∀ e ∈ out, ∀ d ∈ deps e, nm d ∈ seen ∨ d ∈ stack) →
+      NameClosed nm deps out' seen' ∧ (∀ e ∈ stack, nm e ∈ seen') ∧
+      ∃ new, out' = out ++ new ∧ (new.map nm).Nodup ∧ (∀ e ∈ new, nm e ∉ seen) ∧
+        (∀ b, b ∈ seen' ↔ b ∈ seen ∨ b ∈ new.map nm) := by
   intro fuel
   induction fuel with
   | zero =>
@@ -1340,7 +1340,7 @@ theorem walk_spec (deps : α → List α) :
       · cases h1
     | cons e stack =>
       simp only [walk] at h
-      by_cases hes : e ∈ seen
+      by_cases hes : nm e ∈ seen
       · rw [if_pos hes] at h
         obtain ⟨hc, hst, new, h1, h2, h3, h4⟩ := ih stack seen out seen' out' h (by
           intro x hx d hd
@@ -1352,33 +1352,36 @@ theorem walk_spec (deps : α → List α) :
         refine ⟨hc, ?_, new, h1, h2, h3, h4⟩
         intro x hx
         rcases List.mem_cons.mp hx with e1 | e1
-        · subst e1; exact (h4 x).mpr (Or.inl hes)
+        · subst e1; exact (h4 _).mpr (Or.inl hes)
         · exact hst x e1
       · rw [if_neg hes] at h
-        obtain ⟨hc, hst, new, h1, h2, h3, h4⟩ := ih ((deps e).reverse ++ stack) (e :: seen) (out ++ [e]) seen' out' h (by
+        obtain ⟨hc, hst, new, h1, h2, h3, h4⟩ := ih ((deps e).reverse ++ stack) (nm e :: seen) (out ++ [e]) seen' out' h (by
           intro x hx d hd
-          rcases List.mem_cons.mp hx with e1 | e1
-          · subst e1
-            exact Or.inr (List.mem_append.mpr (Or.inl (List.mem_reverse.mpr hd)))
+          rcases List.mem_append.mp hx with e1 | e1
           · rcases hinv x e1 d hd with h1 | h1
             · exact Or.inl (List.mem_cons_of_mem _ h1)
             · rcases List.mem_cons.mp h1 with e2 | e2
               · subst e2; exact Or.inl List.mem_cons_self
-              · exact Or.inr (List.mem_append.mpr (Or.inr e2)))
+              · exact Or.inr (List.mem_append.mpr (Or.inr e2))
+          · have := List.mem_singleton.mp e1; subst this
+            exact Or.inr (List.mem_append.mpr (Or.inl (List.mem_reverse.mpr hd))))
         refine ⟨hc, ?_, e :: new, ?_, ?_, ?_, ?_⟩
         · intro x hx
           rcases List.mem_cons.mp hx with e1 | e1
-          · subst e1; exact (h4 x).mpr (Or.inl List.mem_cons_self)
+          · subst e1; exact (h4 _).mpr (Or.inl List.mem_cons_self)
           · exact hst x (List.mem_append.mpr (Or.inr e1))
         · rw [h1]; simp
-        · rw [List.nodup_cons]
-          exact ⟨fun hn => h3 e hn List.mem_cons_self, h2⟩
+        · rw [List.map_cons, List.nodup_cons]
+          refine ⟨?_, h2⟩
+          intro hn
+          obtain ⟨y, hy, hye⟩ := List.mem_map.mp hn
+          exact h3 y hy (hye ▸ List.mem_cons_self)
         · intro x hx
           rcases List.mem_cons.mp hx with e1 | e1
           · subst e1; exact hes
           · exact fun hs => h3 x e1 (List.mem_cons_of_mem _ hs)
-        · intro x
-          rw [h4 x]
+        · intro b
+          rw [h4 b, List.map_cons]
           constructor
           · rintro (h5 | h5)
             · rcases List.mem_cons.mp h5 with e1 | e1
@@ -1391,12 +1394,12 @@ theorem walk_spec (deps : α → List α) :
               · subst e1; exact Or.inl List.mem_cons_self
               · exact Or.inr e1
 
-theorem walkAll_spec (deps : α → List α) (fuel : Nat) :
-    ∀ (roots seen out seen' out' : List α),
-      walkAll deps fuel roots seen out = some (seen', out') → DepClosed deps seen →
-      DepClosed deps seen' ∧ (∀ r ∈ roots, r ∈ seen') ∧
-      ∃ new, out' = out ++ new ∧ new.Nodup ∧ (∀ e ∈ new, e ∉ seen) ∧
-        (∀ e, e ∈ seen' ↔ e ∈ seen ∨ e ∈ new) := by
+theorem walkAll_spec (nm : α → β) (deps : α → List α) (fuel : Nat) :
+    ∀ (roots : List α) (seen : List β) (out : List α) (seen' : List β) (out' : List α),
+      walkAll nm deps fuel roots seen out = some (seen', out') → NameClosed nm deps out seen →
+      NameClosed nm deps out' seen' ∧ (∀ r ∈ roots, nm r ∈ seen') ∧
+      ∃ new, out' = out ++ new ∧ (new.map nm).Nodup ∧ (∀ e ∈ new, nm e ∉ seen) ∧
+        (∀ b, b ∈ seen' ↔ b ∈ seen ∨ b ∈ new.map nm) := by
   intro roots
   induction roots with
   | nil =>
@@ -1407,28 +1410,31 @@ theorem walkAll_spec (deps : α → List α) (fuel : Nat) :
   | cons r roots ih =>
     intro seen out seen' out' h hc
     simp only [walkAll] at h
-    cases hw : walk deps fuel [r] seen out with
+    cases hw : walk nm deps fuel [r] seen out with
     | none => simp [hw] at h
     | some p =>
       obtain ⟨seen1, out1⟩ := p
       simp only [hw] at h
-      obtain ⟨hc1, hst1, new1, a1, a2, a3, a4⟩ := walk_spec deps fuel [r] seen out seen1 out1 hw
+      obtain ⟨hc1, hst1, new1, a1, a2, a3, a4⟩ := walk_spec nm deps fuel [r] seen out seen1 out1 hw
         (fun e he d hd => Or.inl (hc e he d hd))
       obtain ⟨hc2, hr2, new2, b1, b2, b3, b4⟩ := ih seen1 out1 seen' out' h hc1
       refine ⟨hc2, ?_, new1 ++ new2, ?_, ?_, ?_, ?_⟩
       · intro x hx
         rcases List.mem_cons.mp hx with e1 | e1
-        · subst e1; exact (b4 x).mpr (Or.inl (hst1 x List.mem_cons_self))
+        · subst e1; exact (b4 _).mpr (Or.inl (hst1 x List.mem_cons_self))
         · exact hr2 x e1
       · rw [b1, a1, List.append_assoc]
-      · rw [List.nodup_append]
-        exact ⟨a2, b2, fun x hx y hy e => b3 y hy ((a4 y).mpr (Or.inr (e ▸ hx)))⟩
+      · rw [List.map_append, List.nodup_append]
+        refine ⟨a2, b2, ?_⟩
+        intro x hx y hy e
+        obtain ⟨y', hy', rfl⟩ := List.mem_map.mp hy
+        exact b3 y' hy' ((a4 _).mpr (Or.inr (e ▸ hx)))
       · intro x hx
         rcases List.mem_append.mp hx with e1 | e1
         · exact a3 x e1
-        · exact fun hs => b3 x e1 ((a4 x).mpr (Or.inl hs))
-      · intro x
-        rw [b4 x, a4 x, List.mem_append]
+        · exact fun hs => b3 x e1 ((a4 _).mpr (Or.inl hs))
+      · intro b
+        rw [b4 b, a4 b, List.map_append, List.mem_append]
         constructor
         · rintro ((h5 | h5) | h5)
           · exact Or.inl h5
@@ -1439,16 +1445,20 @@ theorem walkAll_spec (deps : α → List α) (fuel : Nat) :
           · exact Or.inl (Or.inr h5)
           · exact Or.inr h5
 
-/-- per-layer completeness + a dependency-closed set of walked nodes ⇒ `_check_complete` holds for
-the union of their records -/
-theorem union_complete {σ : Type} (deps : α → List α) (keysOf depsOf : α → List σ)
-    (hlayer : ∀ e, ∀ s ∈ depsOf e, s ∈ keysOf e ∨ ∃ d ∈ deps e, s ∈ keysOf d)
-    {S : List α} (hc : DepClosed deps S) :
-    ∀ e ∈ S, ∀ s ∈ depsOf e, ∃ e' ∈ S, s ∈ keysOf e' := by
+/-- per-layer completeness (a layer's records reference its own keys or the block grid of a
+dependency's NAME), every node produces the grid of its name, every dependency of an emitted node
+has the name of an emitted node ⇒ `_check_complete` holds for the union of the emitted layers -/
+theorem union_complete {σ : Type} (nm : α → β) (deps : α → List α) (keysOf depsOf : α → List σ)
+    (gridOf : β → List σ)
+    (hlayer : ∀ e, ∀ s ∈ depsOf e, s ∈ keysOf e ∨ ∃ d ∈ deps e, s ∈ gridOf (nm d))
+    (hprod : ∀ e, ∀ s ∈ gridOf (nm e), s ∈ keysOf e)
+    {out : List α} (hc : ∀ e ∈ out, ∀ d ∈ deps e, nm d ∈ out.map nm) :
+    ∀ e ∈ out, ∀ s ∈ depsOf e, ∃ e' ∈ out, s ∈ keysOf e' := by
   intro e he s hs
   rcases hlayer e s hs with h | ⟨d, hd, h⟩
   · exact ⟨e, he, h⟩
-  · exact ⟨d, hc e he d hd, h⟩
+  · obtain ⟨e', he', hn⟩ := List.mem_map.mp (hc e he d hd)
+    exact ⟨e', he', hprod e' s (hn ▸ h)⟩
 
 end walk
 
